@@ -504,8 +504,21 @@ class C09(Prop):
                      "layout": None, "params": {"process_memory": pm}, "rules": rrules}
                 c.update({"asset": apath} if apath else {"base_hex": bhex})
                 cases.append(c)
+        # cuts at every byte inside the version-info string tables (alone, and with the last byte set to 0)
+        for a in sorted(fmt, key=lambda a: (len(a[1]), a[0])):
+            if a[2] != "pe" or len(a[1]) > (30000 if n <= 5000 else 1 << 30):
+                continue
+            for what, edits in mg.version_table_cuts(a[1]):
+                cases.append({"kind": "explore", "asset": a[0], "fkind": "pe", "mutation": "version-cut", "what": [what],
+                              "edits": edits, "layout": None, "params": {"process_memory": False}, "rules": vrules})
+        # nested fat headers with both values of process_memory
+        for name in [x for x in self.synth_paths if "nested" in x]:
+            for pm in (False, True):
+                cases.append({"kind": "explore", "asset": self.synth_paths[name], "fkind": "fat", "mutation": "synthetic",
+                              "what": [name], "edits": [], "layout": None, "params": {"process_memory": pm},
+                              "rules": mg.all_call_rules("fat")})
         n_explore += sum(1 for c in cases if c["mutation"] in ("dotnet-index", "macho-entry-sweep", "count-field", "version-string",
-                                                               "dex-class-data", "function-extremes", "rich-aggregate"))
+                                                               "dex-class-data", "function-extremes", "rich-aggregate", "version-cut"))
         i = 0
         while len(cases) < n_explore:
             r = rng.fork("m%d" % i)
